@@ -191,6 +191,17 @@ fn gen_c03(rng: &mut Rng, tier: Tier) -> LoopScn {
     s.cost_gen = pick_cost(rng, 0, 10);
     pick_input_counters(rng, &mut s);
     maybe_os_timer(rng, &mut s);
+    // "No time limit reached": whatever the clock does, the counts are fixed.
+    // One run in three meets a clock anomaly — readings that stall (samples
+    // of zero duration), jump forwards or jump backwards (an end reading
+    // below the start reading) — or calls that cost no virtual time at all.
+    if rng.chance(1, 3) {
+        if rng.chance(1, 4) {
+            s.cost_call = Cost::Zero;
+        }
+        let ticks = est_round_ticks(&s);
+        gen_clock_faults(rng, &mut s, ticks);
+    }
     s
 }
 
